@@ -1,9 +1,10 @@
 From Coq Require Import List Bool Arith Floats.PrimFloat.
-From BLE Require Import Num.FloatFun Num.InstF Lib.LinAlg Model.FA Model.LinScore Corr.CorrBase Corr.CorrLinScore.
+From BLE Require Import Num.FloatFun Num.InstF Lib.LinAlg Model.FA Model.LinScore Model.FAScore Corr.CorrBase.
 Import ListNotations.
 Open Scope float_scope.
 
-Module FF := FA InstF.
+Module SF := FAScore InstF.
+Module FF := SF.F.
 Module LA := LinAlg InstF.
 Definition finv := LA.inv.
 
@@ -29,15 +30,10 @@ Definition ex_check (c : ex_case) : bool :=
        (fclose_list (ex_rtol c) (ex_atol c) (FF.estimate_ux finv (ex_rU c) (ex_D c) (ex_u c) (ex_f c) (ex_x c)) (ex_ux c)).
 
 (* score = linear_scoring(client mean, ubm, pooled probe, U x, normalised)[0][0] *)
-Definition unflat (D C : nat) (v : list float) : list (list float) := FF.chunk D C v.
 Record sc_case := { sc_u : FF.ubm; sc_f : FF.fa; sc_rU : nat; sc_D : nat; sc_y : option (list float); sc_z : list float;
                     sc_x : list FF.gstat; sc_t : float; sc_rtol : float; sc_atol : float; sc_out : float }.
 Definition sc_model (c : sc_case) : float :=
-  let C := length (FF.u_mu (sc_u c)) in
-  let ux := FF.estimate_ux finv (sc_rU c) (sc_D c) (sc_u c) (sc_f c) (sc_x c) in
-  let cm := FF.client_mean (sc_u c) (sc_f c) (sc_y c) (sc_z c) in
-  let pooled := mkts (FF.sum_n C (sc_x c)) (FF.sum_f C (sc_D c) (sc_x c)) (sc_t c) in
-  LF.score1 0x1p-52 true (unflat (sc_D c) C cm) (FF.u_mu (sc_u c)) (FF.u_var (sc_u c)) (unflat (sc_D c) C ux) pooled.
+  SF.score finv 0x1p-52 (sc_rU c) (sc_D c) (sc_u c) (sc_f c) (sc_y c) (sc_z c) (sc_x c) (sc_t c).
 Definition sc_check (c : sc_case) : bool := fclose (sc_rtol c) (sc_atol c) (sc_model c) (sc_out c).
 
 (* training: ISV (rV = 0) and JFA; classes = statistics grouped by class in label order *)
